@@ -51,8 +51,9 @@ MANIFEST = dict(
          "zero); the integral is Spec.Quad.integral = open 3-point Newton-Cotes rule on each cell of the kink-complete grid (exact "
          "for piecewise cubics; not bridged to Mathlib's intervalIntegral). Modelled and only compared (not proved): _auxiliary_funcs "
          "(validation, replacement of +-inf by min/max(data, other end) -+ 1 over the batch, array / mixed end points) - the "
-         "theorems hold for ANY finite replacement beyond the two data points, that the code's replacement is beyond the data is "
-         "checked by the differential harness. Not modelled: gather_dimensions / apply_weights / mean (scores compared per case with "
+         "theorems hold for ANY finite replacement beyond the two data points; that the replacement is beyond the data is "
+         "proved for the hand model of the rectangular branch (endpoint_replacement_model_rect) and checked by the differential "
+         "harness for both branches. Not modelled: gather_dimensions / apply_weights / mean (scores compared per case with "
          "preserve_dims='all'), NaN end points, coordinate alignment (C04), float rounding (inputs are dyadic, quotients to 1e-9). "
          "A `<` <-> `<=` flip at a kink where the pieces agree is recognised as harmless by the tie lemmas.",
     technique="Lean 4 theorems over translator-regenerated definitions (generic cell-wise antiderivative calculus) + differential "
@@ -741,11 +742,11 @@ def oracle_relations(ctx, boost):
             for v, lab in ((left[nme], "left"), (right[nme], "right"), (mid[nme], "trap"), (lramp[nme], "lramp"), (rramp[nme], "rramp")):
                 if np.any(np.ravel(v) < -1e-9):
                     ctx.fail("nonnegative-zero-at-equality", "property", nme, "negative-score", dict(case, weight=lab), observed=v.tolist(),
-                             expected=">= 0", tags={"function": nme}, theorem="tw_nonneg")
+                             expected=">= 0", tags={"function": nme}, theorem="tw_nonneg_rect / tw_nonneg_trap")
                 eq = np.ravel(fc == ob)
                 if np.any(np.abs(np.ravel(v)[eq]) > 1e-9):
                     ctx.fail("nonnegative-zero-at-equality", "property", nme, "nonzero-at-fcst-equals-obs", dict(case, weight=lab),
-                             observed=v.tolist(), expected="0 where fcst == obs", tags={"function": nme}, theorem="tw_zero_at_equality")
+                             observed=v.tolist(), expected="0 where fcst == obs", tags={"function": nme}, theorem="tw_nonneg_rect / tw_nonneg_trap (zero at x = y)")
     std = core.run_driver("C10spec", std_ops)
     k = 0
     for fc, ob, alpha, huber, one, one_t, names in std_cases:
